@@ -1,14 +1,23 @@
 #!/bin/bash
-# Sequential re-evaluation of every seeded change with the current checks
-# (quick tier; baseline tests skipped - they were confirmed at import time).
+# Re-evaluation of every seeded change with the current checks (quick tier; the pinned
+# tests are confirmed separately by tools/confirm_tests.sh).  Two lanes in parallel,
+# 7 worker processes each.  Result: scratch/seeded_results.txt
 cd /verif
-out=scratch/seeded_results.txt; : > $out
-for d in seeded/*/; do
-  id=$(basename $d); P=${id%-*}
-  [ -f $d/patch.diff ] || continue
-  res=$(SKIP_TESTS=1 timeout 3000 tools/eval_mutant.sh $P $d/patch.diff $d/demo.py quick 2>&1)
-  ce=$(echo "$res" | grep -o "check exit=[0-9]*" | head -1)
-  de=$(echo "$res" | grep -o "demo exit=[0-9]*" | head -1)
-  key=$(echo "$res" | grep "^  key=" | head -1 | cut -c1-150)
-  echo "$id $de $ce $key" >> $out
-done
+lane() {
+  out=$1; shift; : > $out
+  for d in "$@"; do
+    id=$(basename $d); P=${id%-*}
+    [ -f $d/patch.diff ] || continue
+    res=$(SKIP_TESTS=1 VERIF_JOBS=7 timeout 3000 tools/eval_mutant.sh $P $d/patch.diff $d/demo.py quick 2>&1)
+    ce=$(echo "$res" | grep -o "check exit=[0-9]*" | head -1)
+    de=$(echo "$res" | grep -o "demo exit=[0-9]*" | head -1)
+    key=$(echo "$res" | grep "^  key=" | head -1 | cut -c1-150)
+    echo "$id $de $ce $key" >> $out
+  done
+}
+all=(seeded/*/)
+n=${#all[@]}; h=$((n/2))
+lane scratch/seeded_results.a "${all[@]:0:$h}" &
+lane scratch/seeded_results.b "${all[@]:$h}" &
+wait
+cat scratch/seeded_results.a scratch/seeded_results.b | sort > scratch/seeded_results.txt
